@@ -215,9 +215,13 @@ def run(ctx: Any, prog: Program) -> None:
     ctx.rule('C04.A5', 'Euler extraction atan2 arguments are (k sin x, k cos x) for the extracted angle; gimbal threshold 0.001', floor=6)
     ctx.rule('C04.A6', 'Cython siblings agree with the Python formulas', floor=25)
     ctx.rule('C04.A8', 'inverse(): the pivot chosen in each column is the entry of largest magnitude, so an invertible matrix never fails the final threshold test because of pivot choice', floor=1)
+    ctx.rule('C04.A9', 'rotation operators are functions of their operands alone: no module-level state is written on the way', floor=10)
+    ctx.rule('C04.A10', 'Euler components of two rotations are never simply added, except when the rotation applied second is a pure yaw', floor=1)
     ctx.rule('C04.A7', 'in-place kernels are alias safe, or are only called with a fresh receiver (m @= m computes m @ m)', floor=4)
 
     a8_pivoting(ctx, mt)
+    a9_operator_purity(ctx, mt)
+    a10_no_component_addition(ctx, mt)
     # A7 first: it needs no algebra, and its definite findings must be reported even when a later step declines
     a7_alias_safety(ctx, prog, mt, PyxFile(prog, '_math.pyx'))
     form, vform = extract_forms(prog)
@@ -450,6 +454,107 @@ def run(ctx: Any, prog: Program) -> None:
                              {'yaw': 'ang.y', 'pitch': 'ang.x', 'roll': 'ang.z'}, None, None)
     ctx.check('C04.A6', a5_cy == a5_python, None, None, f'Cython Euler extraction {a5_cy} differs from Python {a5_python}', file=pyx.relpath,
               func='_mat_to_angle', text='atan2 argument pairs equal')
+
+
+def a9_operator_purity(ctx: Any, mt: Any) -> None:
+    """`Vec @ Angle` must equal `Vec @ Matrix.from_angle(Angle)` whatever happened before.  A module-level cache written by a function on the
+    operator path (a `global` rebinding, or a module-level dict/list/set that is stored into) makes the result depend on earlier calls:
+    an Angle is mutable, so a matrix remembered for the *object* is stale as soon as the object is changed in place."""
+    mutable_globals = {t.id for st in mt.tree.body if isinstance(st, (ast.Assign, ast.AnnAssign)) and st.value is not None
+                       and (isinstance(st.value, (ast.Dict, ast.Set, ast.List)) or (isinstance(st.value, ast.Call) and dotted(st.value.func) in ('dict', 'set', 'list', 'collections.OrderedDict', 'WeakKeyDictionary', 'weakref.WeakKeyDictionary')))
+                       for t in (st.targets if isinstance(st, ast.Assign) else [st.target]) if isinstance(t, ast.Name)}
+    # functions reachable from the rotation operators (by simple name / method name)
+    roots = [q for q in mt.all_funcs() if q.split('.')[-1] in ('__matmul__', '__rmatmul__', '__imatmul__', '_rotate_angle', 'from_angle', '_mat_mul', '_vec_rot', '_to_angle')]
+    by_name: Dict[str, List[str]] = {}
+    for q in mt.all_funcs():
+        by_name.setdefault(q.split('.')[-1], []).append(q)
+    seen: set = set()
+    todo = list(roots)
+    while todo:
+        q = todo.pop()
+        if q in seen:
+            continue
+        seen.add(q)
+        for fn in mt.all_funcs()[q]:
+            for c in ast.walk(fn):
+                if isinstance(c, ast.Call):
+                    nm = c.func.id if isinstance(c.func, ast.Name) else (c.func.attr if isinstance(c.func, ast.Attribute) else None)
+                    if nm in by_name and (nm.startswith('_') or nm in ('from_angle', 'copy')):
+                        todo += by_name[nm]
+    n = 0
+    for q in sorted(seen):
+        for fn in mt.all_funcs()[q]:
+            n += 1
+            globs = [g for g in ast.walk(fn) if isinstance(g, ast.Global)]
+            stores = [c for c in ast.walk(fn) if (isinstance(c, ast.Call) and isinstance(c.func, ast.Attribute) and isinstance(c.func.value, ast.Name) and c.func.value.id in mutable_globals
+                                                 and c.func.attr in ('append', 'add', 'update', 'setdefault', 'pop', 'clear', '__setitem__'))
+                      or (isinstance(c, ast.Assign) and any(isinstance(t, ast.Subscript) and isinstance(t.value, ast.Name) and t.value.id in mutable_globals for t in c.targets))]
+            bad = (globs or stores)
+            ctx.check('C04.A9', not bad, mt, bad[0] if bad else fn, (f'{q} is on the path of a rotation operator and writes module-level state (`{ast.unparse(bad[0])[:60]}`): what an operator returns then depends on '
+                      'earlier calls - a matrix remembered for an Angle object is stale once that object is modified in place, so `v @ ang` differs from `v @ Matrix.from_angle(ang)`') if bad else 'no module-level state written',
+                      func=q, text=f'{q}: no module-level state')
+    if n < 10:
+        raise AnalysisError(f'A9: only {n} functions on the rotation operator path')
+
+
+ANG_F = ('_pitch', '_yaw', '_roll', 'pitch', 'yaw', 'roll')
+
+
+def a10_no_component_addition(ctx: Any, mt: Any) -> None:
+    """M(A) . M(B) = Mr_a Mp_a My_a Mr_b Mp_b My_b.  Adding the components gives that product only when B - the rotation applied second - has
+    no pitch and no roll (then the two yaw matrices meet and merge).  With A a pure yaw the yaw of A has to cross B's roll and pitch, which
+    it does not commute with.  So a `X._pitch + Y._pitch, X._yaw + Y._yaw, ...` shortcut must be guarded by `B._pitch == 0 and B._roll == 0`
+    in every alternative of its condition."""
+    n_fn = 0
+    for q, fns in mt.all_funcs().items():
+        if q.split('.')[-1] not in ('_rotate_angle', '__matmul__', '__rmatmul__', '__imatmul__') or not q.startswith(('AngleBase', 'Angle', 'FrozenAngle')):
+            continue
+        for fn in fns:
+            n_fn += 1
+            sums = [b for b in ast.walk(fn) if isinstance(b, ast.BinOp) and isinstance(b.op, ast.Add) and isinstance(b.left, ast.Attribute) and isinstance(b.right, ast.Attribute)
+                    and b.left.attr in ANG_F and b.right.attr.lstrip('_') == b.left.attr.lstrip('_') and isinstance(b.left.value, ast.Name) and isinstance(b.right.value, ast.Name) and b.left.value.id != b.right.value.id]
+            if not sums:
+                ctx.check('C04.A10', True, mt, fn, 'no component-wise addition', func=q, text=f'{q}: no component-wise addition of two rotations')
+                continue
+            names = {sums[0].left.value.id, sums[0].right.value.id}
+            # which operand is applied second: `mat = from_angle(A)` ... `mat @= B` / `mat._mat_mul(from_angle(B))`
+            second = None
+            for a in ast.walk(fn):
+                if isinstance(a, ast.AugAssign) and isinstance(a.op, ast.MatMult) and isinstance(a.value, ast.Name) and a.value.id in names:
+                    second = a.value.id
+                if isinstance(a, ast.Call) and isinstance(a.func, ast.Attribute) and a.func.attr == '_mat_mul' and a.args:
+                    inner = [x.id for x in ast.walk(a.args[0]) if isinstance(x, ast.Name) and x.id in names]
+                    if inner:
+                        second = inner[0]
+            guard = None
+            cur = mt.parents.get(sums[0])
+            while cur is not None and cur is not fn:
+                if isinstance(cur, ast.If) and any(sums[0] is x for b in cur.body for x in ast.walk(b)):
+                    guard = cur.test
+                    break
+                cur = mt.parents.get(cur)
+            if second is None or guard is None:
+                ctx.check('C04.A10', guard is not None, mt, sums[0], f'{q} adds the Euler components of two rotations' + (' unconditionally' if guard is None else '; which operand is applied second could not be determined'),
+                          func=q, text=f'{q}: component-wise addition guarded') if guard is None else ctx.shape('C04.A10', False, mt, sums[0], 'order of the two operands in the general path not recognised', func=q, text=f'{q}: component-wise addition guarded')
+                continue
+
+            def zero_facts(t: ast.AST) -> set:
+                out: set = set()
+                for c in ast.walk(t):
+                    if isinstance(c, ast.Compare) and all(isinstance(o, ast.Eq) for o in c.ops):
+                        items = [c.left] + list(c.comparators)
+                        if any(isinstance(i, ast.Constant) and i.value == 0 for i in items):
+                            for i in items:
+                                if isinstance(i, ast.Attribute) and isinstance(i.value, ast.Name):
+                                    out.add((i.value.id, i.attr.lstrip('_')))
+                return out
+            alts = guard.values if isinstance(guard, ast.BoolOp) and isinstance(guard.op, ast.Or) else [guard]
+            bad_alt = [a for a in alts if not {(second, 'pitch'), (second, 'roll')} <= zero_facts(a)]
+            ctx.check('C04.A10', not bad_alt, mt, sums[0], (f'{q} adds the components of `{sorted(names)[0]}` and `{sorted(names)[1]}` when `{ast.unparse(bad_alt[0])[:60]}`, which does not make `{second}` (the rotation applied second) a pure yaw: '
+                      'a yaw applied FIRST does not commute with the later pitch/roll, e.g. Angle(0, 90, 0) @ Angle(45, 0, 0) is Angle(0, 90, 45), not Angle(45, 90, 0)') if bad_alt else 'shortcut only for a pure-yaw second rotation',
+                      func=q, text=f'{q}: component-wise addition guarded')
+    if n_fn < 3:
+        raise AnalysisError(f'A10: only {n_fn} angle composition functions found')
 
 
 def a8_pivoting(ctx: Any, mt: Any) -> None:
@@ -776,6 +881,9 @@ def analyse_to_angle(ctx: Any, rule: str, relpath: str, qual: str, body: List[as
 
 
 MUTANTS = [
+    {'id': 'angle_addition_when_either_is_pure_yaw', 'file': 'math.py', 'find': "        mat = Py_Matrix.from_angle(target)\n        mat @= self\n", 'replace': "        if (target._pitch == 0.0 == target._roll) or (self._pitch == 0.0 == self._roll):\n            return cls(target._pitch + self._pitch, target._yaw + self._yaw, target._roll + self._roll)\n        mat = Py_Matrix.from_angle(target)\n        mat @= self\n", 'expect': 'C04.A10'},
+    {'id': 'angle_addition_when_second_is_pure_yaw', 'file': 'math.py', 'find': "        mat = Py_Matrix.from_angle(target)\n        mat @= self\n", 'replace': "        if self._pitch == 0.0 == self._roll:\n            return cls(target._pitch + self._pitch, target._yaw + self._yaw, target._roll + self._roll)\n        mat = Py_Matrix.from_angle(target)\n        mat @= self\n", 'expect': None, 'refuse_ok': True},
+    {'id': 'vec_rotation_matrix_memo', 'file': 'math.py', 'find': "        elif isinstance(other, AngleBase):\n            mat = Py_Matrix.from_angle(other)\n        else:\n            return NotImplemented\n        res = type(self)(self._x, self._y, self._z)", 'replace': "        elif isinstance(other, AngleBase):\n            mat = _angle_rot(other)\n        else:\n            return NotImplemented\n        res = type(self)(self._x, self._y, self._z)", 'extra': [{'file': 'math.py', 'find': "def format_float(x: float, places: int = 6) -> str:", 'replace': "_last_vec_rot = (None, None)\n\n\ndef _angle_rot(ang):\n    global _last_vec_rot\n    last_ang, mat = _last_vec_rot\n    if mat is None or last_ang is not ang:\n        mat = Py_Matrix.from_angle(ang)\n        _last_vec_rot = (ang, mat)\n    return mat\n\n\ndef format_float(x: float, places: int = 6) -> str:"}], 'expect': 'C04.A9'},
     {'id': 'trig_values_snapped_in_helper', 'file': 'math.py', 'find': "        rad_yaw = math.radians(yaw)\n        sin = math.sin(rad_yaw)\n        cos = math.cos(rad_yaw)\n", 'replace': "        sin, cos = _sin_cos(yaw)\n", 'extra': [{'file': 'math.py', 'find': "def format_float(x: float, places: int = 6) -> str:", 'replace': "def _sin_cos(degrees: float) -> 'tuple[float, float]':\n    rad = math.radians(degrees)\n    sin = math.sin(rad)\n    cos = math.cos(rad)\n    if abs(sin) < 1e-6:\n        return 0.0, math.copysign(1.0, cos)\n    return sin, cos\n\n\ndef format_float(x: float, places: int = 6) -> str:"}], 'expect': 'C04.A1'},
     {'id': 'trig_values_through_plain_helper', 'file': 'math.py', 'find': "        rad_yaw = math.radians(yaw)\n        sin = math.sin(rad_yaw)\n        cos = math.cos(rad_yaw)\n", 'replace': "        sin, cos = _sin_cos(yaw)\n", 'extra': [{'file': 'math.py', 'find': "def format_float(x: float, places: int = 6) -> str:", 'replace': "def _sin_cos(degrees: float) -> 'tuple[float, float]':\n    rad = math.radians(degrees)\n    return math.sin(rad), math.cos(rad)\n\n\ndef format_float(x: float, places: int = 6) -> str:"}], 'expect': None},
     {'id': 'transpose_from_raw_one_pair_unswapped', 'file': 'math.py', 'find': "        cls = type(self)\n        rot = cls.__new__(cls)\n\n        rot._aa, rot._ab, rot._ac = self._aa, self._ba, self._ca\n        rot._ba, rot._bb, rot._bc = self._ab, self._bb, self._cb\n        rot._ca, rot._cb, rot._cc = self._ac, self._bc, self._cc\n\n        return rot", 'replace': "        return type(self)._from_raw(\n            self._aa, self._ba, self._ca,\n            self._ab, self._bb, self._bc,\n            self._ac, self._bc, self._cc,\n        )", 'expect': 'C04.A3'},
